@@ -1515,6 +1515,158 @@ func c14runBatch(ctx *hlib.Ctx, w int, cases []*c14case) []c14obs {
 	return res
 }
 
+// ---------------------------------------------------------------- parent: scheduler stream (child in zz_verif_c14s_test.go)
+
+type c14sAttempt struct {
+	Peer  int  `json:"peer"`
+	Hash  int  `json:"hash"`
+	Known bool `json:"known"`
+	BfOK  bool `json:"bfok"`
+}
+
+type c14sCase struct {
+	ID   uint64        `json:"id"`
+	Atts []c14sAttempt `json:"atts"`
+	kind string
+}
+
+type c14sObs struct {
+	Res   []int  `json:"res"`
+	Incon bool   `json:"incon"`
+	Note  string `json:"note"`
+}
+
+func c14schedCases(r *hlib.Rng, n int) []*c14sCase {
+	honest := func(p int) c14sAttempt { return c14sAttempt{Peer: p, Hash: 0, Known: true, BfOK: true} }
+	foreign := func(p, h int) c14sAttempt { return c14sAttempt{Peer: p, Hash: h, Known: true, BfOK: true} }
+	var cs []*c14sCase
+	add := func(kind string, atts ...c14sAttempt) {
+		cs = append(cs, &c14sCase{ID: r.U64(), Atts: atts, kind: kind})
+	}
+	// seeds: the refuted witness (the same handshake twice), and what must keep working around it
+	add("seed-sched-foreign-hash-twice", foreign(1, 7), foreign(1, 7))
+	add("seed-sched-foreign-hash-then-honest", foreign(1, 7), honest(1), foreign(1, 7), honest(2), honest(1))
+	add("seed-sched-many-foreign-hashes", foreign(1, 1), foreign(1, 2), foreign(1, 3), foreign(1, 1), foreign(1, 2), foreign(1, 3), honest(1))
+	add("seed-sched-honest-twice", honest(1), honest(1), honest(2))
+	add("seed-sched-unknown-digest-twice", c14sAttempt{1, 0, false, true}, c14sAttempt{1, 0, false, true}, c14sAttempt{1, 5, false, true}, c14sAttempt{1, 5, false, true}, honest(1))
+	add("seed-sched-wrong-bitfield-twice", c14sAttempt{1, 0, true, false}, c14sAttempt{1, 0, true, false}, honest(1))
+	add("seed-sched-foreign-hash-wrong-bitfield", c14sAttempt{1, 4, true, false}, c14sAttempt{1, 4, true, false}, honest(1))
+	for i := 0; i < n; i++ {
+		var atts []c14sAttempt
+		for j := r.Range(2, 7); j > 0; j-- {
+			a := honest(r.Range(1, 2))
+			if r.Chance(45) {
+				a.Hash = r.Range(1, 3)
+			}
+			if r.Chance(12) {
+				a.Known = false
+			}
+			if r.Chance(12) {
+				a.BfOK = false
+			}
+			atts = append(atts, a)
+		}
+		cs = append(cs, &c14sCase{ID: r.U64(), Atts: atts, kind: "sched-incoming"})
+	}
+	return cs
+}
+
+func c14schedRun(ctx *hlib.Ctx, cases []*c14sCase, round int) ([]c14sObs, string) {
+	dir := filepath.Join(ctx.Tmp, fmt.Sprintf("sched%d", round))
+	os.MkdirAll(dir, 0o755)
+	defer os.RemoveAll(dir)
+	inp, outp := filepath.Join(dir, "in.jsonl"), filepath.Join(dir, "out.jsonl")
+	var buf bytes.Buffer
+	for _, cs := range cases {
+		b, _ := json.Marshal(cs)
+		buf.Write(b)
+		buf.WriteByte('\n')
+	}
+	if err := os.WriteFile(inp, buf.Bytes(), 0o644); err != nil {
+		panic(err)
+	}
+	cmd := exec.Command(os.Args[0], "-test.run", "^TestVerifC14SchedChild$", "-test.timeout", "0")
+	cmd.Env = append(os.Environ(), "VERIF_C14_SCHED_CHILD=1", "VERIF_C14_IN="+inp, "VERIF_C14_OUT="+outp, "VERIF_C14_TMP="+dir, "GOTRACEBACK=single")
+	var stderr bytes.Buffer
+	cmd.Stderr = &stderr
+	cmd.Stdout = io.Discard
+	err := cmd.Run()
+	var res []c14sObs
+	if f, e := os.Open(outp); e == nil {
+		sc := bufio.NewScanner(f)
+		sc.Buffer(make([]byte, 1<<20), 1<<24)
+		for sc.Scan() {
+			var o c14sObs
+			if json.Unmarshal(sc.Bytes(), &o) == nil {
+				res = append(res, o)
+			}
+		}
+		f.Close()
+	}
+	note := ""
+	if err != nil {
+		se := stderr.String()
+		for _, mark := range []string{"panic:", "fatal error:"} {
+			if k := strings.Index(se, mark); k >= 0 {
+				se = se[k:]
+				break
+			}
+		}
+		if len(se) > 400 {
+			se = se[:400]
+		}
+		note = fmt.Sprintf("scheduler child: %v: %s", err, se)
+	}
+	return res, note
+}
+
+func c14schedEmit(ctx *hlib.Ctx, r *hlib.Rng, n int, guard string) {
+	cases := c14schedCases(r, n)
+	r1, note1 := c14schedRun(ctx, cases, 1)
+	r2, _ := c14schedRun(ctx, cases, 2)
+	for i, cs := range cases {
+		var atts, hist []string
+		for _, a := range cs.Atts {
+			atts = append(atts, fmt.Sprintf("mksa %d %d %s %s", a.Peer, a.Hash, hlib.B(a.Known), hlib.B(a.BfOK)))
+			switch {
+			case !a.Known:
+				hist = append(hist, "incoming-unknown-digest")
+			case a.Hash != 0:
+				hist = append(hist, "incoming-foreign-hash")
+			case !a.BfOK:
+				hist = append(hist, "incoming-wrong-bitfield")
+			default:
+				hist = append(hist, "incoming-honest")
+			}
+		}
+		var o c14sObs
+		switch {
+		case i >= len(r1):
+			// the child died: the crash of the scheduler process is what this case observed
+			o = c14sObs{Note: note1}
+			for range cs.Atts {
+				o.Res = append(o.Res, -1)
+			}
+		case i >= len(r2) || fmt.Sprint(r1[i].Res) != fmt.Sprint(r2[i].Res):
+			o = r1[i]
+			o.Incon, o.Note = true, "two executions of the case differ"
+		default:
+			o = r1[i]
+		}
+		res := make([]int64, len(o.Res))
+		served := 0
+		for k, v := range o.Res {
+			res[k] = int64(v)
+			if v == 2 {
+				served++
+			}
+		}
+		ctx.Emit(hlib.Case{Coq: fmt.Sprintf("mkscase %s %s %s", guard, hlib.List(atts), c14zs(res)), NT: served >= 1 && len(cs.Atts) >= 2,
+			Kind: c14stream(cs.kind), Hist: hist, Incon: o.Incon,
+			Sample: map[string]interface{}{"kind": cs.kind, "attempts": cs.Atts, "results": o.Res, "note": o.Note}})
+	}
+}
+
 func c14stream(kind string) string {
 	if strings.HasPrefix(kind, "seed-") {
 		return "seed"
@@ -1548,6 +1700,16 @@ func c14driver(ctx *hlib.Ctx) {
 			g.rawCase("raw-bytes")
 		}
 	}
+
+	sguard := "true"
+	if g.guards == "gprefix" {
+		sguard = "false"
+	}
+	nsched := 25
+	if ctx.Tier == "thorough" {
+		nsched = 300
+	}
+	c14schedEmit(ctx, g.r.Fork(), nsched, sguard)
 
 	workers := 12
 	if len(g.cases) < 64 {
